@@ -12,14 +12,11 @@ import (
 )
 
 func init() {
+	vRegister("vC34_init", vC34_init)
+	vRegister("vC34_step", vC34_step)
 	vRegister("vC34_history2", vC34_history2)
-	vRegister("vC34_history4", vC34_history4)
-	vRegister("vC34_history5", vC34_history5)
-	vRegister("vC34_history6", vC34_history6)
-	vRegister("vC34_history7", vC34_history7)
-	vRegister("vC34_progress4", vC34_progress4)
-	vRegister("vC34_progress5", vC34_progress5)
-	vRegister("vC34_progress6", vC34_progress6)
+	vRegister("vC34_history3", vC34_history3)
+	vRegister("vC34_redeparture", vC34_redeparture)
 }
 
 // node 0 is the local node (discovery.Node{Host: "h0", PeersPort: 1}.PeersAddress() == "h0:1")
@@ -38,12 +35,11 @@ func (s *vC34Set) Add(v string) bool {
 	return !had
 }
 func (s *vC34Set) Contains(vs ...string) bool {
-	for _, v := range vs {
-		if _, ok := s.m[v]; !ok {
-			return false
-		}
+	if len(vs) != 1 {
+		panic("harness set: Contains is only used with one argument")
 	}
-	return true
+	_, ok := s.m[vs[0]]
+	return ok
 }
 func (s *vC34Set) Remove(v string) { delete(s.m, v) }
 
@@ -66,14 +62,6 @@ func vC34_newCluster(chanCap int) *cluster {
 
 // substitute for (*discovery.Node).PeersAddress (net.JoinHostPort is outside the encoder): same value as the real one for the harness node
 func vC34_peersAddress(n *discovery.Node) string { return "h0:1" }
-
-// substitute for (*cluster).sendEventLocked in the progress entries: the event channel is assumed to have room (never drops)
-func vC34_sendNoDrop(x *cluster, e *Event) {
-	if x.events == nil {
-		return
-	}
-	x.events <- e
-}
 
 func vC34_index(addr string) int {
 	for i := 0; i < 4; i++ {
@@ -102,123 +90,301 @@ const (
 	vC34_overdue
 )
 
-func vC34_history2()  { vC34_run(3, false) }
-func vC34_history4()  { vC34_run(4, false) }
-func vC34_history5()  { vC34_run(5, false) }
-func vC34_history6()  { vC34_run(6, false) }
-func vC34_history7()  { vC34_run(7, false) }
-func vC34_progress4() { vC34_run(4, true) }
-func vC34_progress5() { vC34_run(5, true) }
-func vC34_progress6() { vC34_run(6, true) }
+func vC34_in(m map[string]int64, k string) bool  { _, ok := m[k]; return ok }
+func vC34_inE(m map[string]uint64, k string) bool { _, ok := m[k]; return ok }
+func vC34_seen(m map[uint64]struct{}, e uint64) bool {
+	_, ok := m[e]
+	return ok
+}
 
-func vC34_run(K int, progress bool) {
+const vC34_nInv = 12
+
+var vC34_invNames = [vC34_nInv]string{
+	"invariant: a node with a departure epoch is a pending departure, and its epoch is the latest node-left epoch",
+	"invariant: a node with an arrival epoch is a pending arrival, and its epoch is the latest node-join epoch",
+	"invariant: once a node-left epoch was seen every pending departure has an epoch",
+	"invariant: once a node-join epoch was seen every pending arrival has an epoch",
+	"invariant: a pending departure is not in the NodeLeft filter and a pending arrival is not in the NodeJoined filter",
+	"invariant: no departure stays pending once the latest node-left epoch has completed (same for arrivals)",
+	"invariant: the local node is never a pending arrival nor in the NodeJoined filter",
+	"invariant: pending departures / arrivals were notified",
+	"invariant: a node reported and not yet superseded by the opposite event is in the corresponding filter",
+	"invariant: a node whose last report is NodeLeft is in the NodeLeft filter",
+	"invariant: a departure that still has to be reported is pending",
+	"invariant: the monitor's epochs are the ones the cluster recorded",
+}
+
+// representation invariant of the membership bookkeeping + its link to the monitor (evaluated on the real maps)
+func vC34_inv(x *cluster, m *vC34Mon) [vC34_nInv]bool {
+	var r [vC34_nInv]bool
+	for i := 0; i < vC34_nInv; i++ {
+		r[i] = true
+	}
+	ll, jl := x.rebalanceLeftLatestEpoch, x.rebalanceJoinLatestEpoch
+	leftSettled := ll != 0 && vC34_seen(x.rebalanceCompleteSeen, ll)
+	joinSettled := jl != 0 && vC34_seen(x.rebalanceCompleteSeen, jl)
+	for c := 0; c < 4; c++ {
+		name := vC34_names[c]
+		lt, jt := vC34_in(x.nodeLeftTimestamps, name), vC34_in(x.nodeJoinTimestamps, name)
+		le, je := vC34_inE(x.rebalanceLeftNodeEpochs, name), vC34_inE(x.rebalanceJoinNodeEpochs, name)
+		lf, jf := x.nodeLeftEventsFilter.Contains(name), x.nodeJoinedEventsFilter.Contains(name)
+		if le && !(lt && ll != 0 && x.rebalanceLeftNodeEpochs[name] == ll) {
+			r[0] = false
+		}
+		if je && !(jt && jl != 0 && x.rebalanceJoinNodeEpochs[name] == jl) {
+			r[1] = false
+		}
+		if ll != 0 && lt && !le {
+			r[2] = false
+		}
+		if jl != 0 && jt && !je {
+			r[3] = false
+		}
+		if (lt && lf) || (jt && jf) {
+			r[4] = false
+		}
+		if (leftSettled && lt) || (joinSettled && jt) {
+			r[5] = false
+		}
+		if c == 0 && (jt || jf) {
+			r[6] = false
+		}
+		if (lt && !m.leftNotified[c]) || (jt && !m.joinNotified[c]) {
+			r[7] = false
+		}
+		if (m.leftOpen[c] && !lf) || (m.joinedOpen[c] && !jf) {
+			r[8] = false
+		}
+		if m.lastOut[c] == 1 && !lf {
+			r[9] = false
+		}
+		if c != 0 && m.wantLeft[c] && !lt {
+			r[10] = false
+		}
+	}
+	if uint64(m.leftLatest) != ll || uint64(m.joinLatest) != jl {
+		r[11] = false
+	}
+	for e := 1; e <= 3; e++ {
+		if m.startSeen[e] != vC34_seen(x.rebalanceStartSeen, uint64(e)) || m.completeSeen[e] != vC34_seen(x.rebalanceCompleteSeen, uint64(e)) {
+			r[11] = false
+		}
+	}
+	return r
+}
+
+// the invariant holds in the initial state
+func vC34_init() {
+	x := vC34_newCluster(1)
+	var m vC34Mon
+	inv := vC34_inv(x, &m)
+	for i := 0; i < vC34_nInv; i++ {
+		vAssert(inv[i], vC34_invNames[i])
+	}
+	vCover("end")
+}
+
+// one notification from an ARBITRARY bookkeeping / monitor state (nodes self,p1..p3; epochs 1..3) satisfying the invariant:
+// the step obeys the monitor and re-establishes the invariant -> histories of any length
+func vC34_step() {
+	x := vC34_newCluster(8)
+	var m vC34Mon
+	ll, jl := vChoose("leftLatest", 4), vChoose("joinLatest", 4)
+	x.rebalanceLeftLatestEpoch, x.rebalanceJoinLatestEpoch = uint64(ll), uint64(jl)
+	m.leftLatest, m.joinLatest = ll, jl
+	for e := 1; e <= 3; e++ {
+		ss, cs := vNondetBool("startSeen"), vNondetBool("completeSeen")
+		m.startSeen[e], m.completeSeen[e] = ss, cs
+		if ss {
+			x.rebalanceStartSeen[uint64(e)] = struct{}{}
+		}
+		if cs {
+			x.rebalanceCompleteSeen[uint64(e)] = struct{}{}
+		}
+	}
+	for c := 0; c < 4; c++ {
+		name := vC34_names[c]
+		jf, lf := vNondetBool("inJoinedFilter"), vNondetBool("inLeftFilter")
+		jt, lt := vNondetBool("pendingJoin"), vNondetBool("pendingLeft")
+		je, le := vNondetBool("hasJoinEpoch"), vNondetBool("hasLeftEpoch")
+		jev, lev := vChoose("joinEpoch", 3)+1, vChoose("leftEpoch", 3)+1
+		m.leftNotified[c], m.joinNotified[c] = vNondetBool("leftNotified"), vNondetBool("joinNotified")
+		m.leftOpen[c], m.joinedOpen[c] = vNondetBool("leftOpen"), vNondetBool("joinedOpen")
+		m.lastOut[c] = vChoose("lastOut", 3)
+		m.wantLeft[c] = vNondetBool("wantLeft")
+		if jf {
+			x.nodeJoinedEventsFilter.Add(name)
+		}
+		if lf {
+			x.nodeLeftEventsFilter.Add(name)
+		}
+		if jt {
+			x.nodeJoinTimestamps[name] = 1000000
+		}
+		if lt {
+			x.nodeLeftTimestamps[name] = 2000000
+		}
+		if je {
+			x.rebalanceJoinNodeEpochs[name] = uint64(jev)
+		}
+		if le {
+			x.rebalanceLeftNodeEpochs[name] = uint64(lev)
+		}
+	}
+	pre := vC34_inv(x, &m)
+	for i := 0; i < vC34_nInv; i++ {
+		vAssume(pre[i])
+	}
+	vC34_notify(x, &m, 5, true)
+	post := vC34_inv(x, &m)
+	for i := 0; i < vC34_nInv; i++ {
+		vAssert(post[i], vC34_invNames[i])
+	}
+	vCover("end")
+}
+
+func vC34_history2() { vC34_run(2) }
+func vC34_history3() { vC34_run(3) }
+
+// bounded history from the real initial state
+func vC34_run(K int) {
 	x := vC34_newCluster(K) // a step emits at most one event per earlier notification, so K slots never overflow
 	var m vC34Mon
 	for k := 0; k < K; k++ {
-		// one notification: kind, the node it names, and (for rebalance events) epoch and reason
-		kind := vChoose("kind", 5)
-		n := vChoose("node", 4)
-		e := vChoose("epoch", 3) + 1
-		r := vChoose("reason", 3)
-		ts := int64(k+1) * 1000000
-		// the node / epoch are dispatched over their (small) domains so the handlers run on concrete map keys
-		for c := 0; c < 4; c++ {
-			if n != c {
-				continue
-			}
-			switch kind {
-			case vC34_join:
-				m.joinNotified[c] = true
-				m.leftOpen[c] = false
-				x.trackNodeJoinEvent(events.NodeJoinEvent{NodeJoin: vC34_names[c], Timestamp: ts})
-			case vC34_left:
-				m.leftNotified[c] = true
-				m.joinedOpen[c] = false
-				if m.lastOut[c] != 1 {
-					m.wantLeft[c] = true
-				}
-				x.trackNodeLeftEvent(events.NodeLeftEvent{NodeLeft: vC34_names[c], Timestamp: ts})
-			case vC34_overdue:
-				x.emitOverdueNodeLeft(vC34_names[c])
-			}
-		}
-		for c := 1; c <= 3; c++ {
-			if e != c {
-				continue
-			}
-			switch kind {
-			case vC34_start:
-				if r < 2 && !(r == 1 && n == 0) && !m.startSeen[c] {
-					m.startSeen[c] = true
-					if r == 0 {
-						m.leftLatest = c
-					} else {
-						m.joinLatest = c
-					}
-				}
-				x.processRebalanceStart(events.RebalanceStartEvent{Epoch: uint64(c), Reason: vC34_reasons[r], Node: vC34_names[n]})
-			case vC34_complete:
-				m.completeSeen[c] = true
-				x.processRebalanceComplete(events.RebalanceCompleteEvent{Epoch: uint64(c)})
-			}
-		}
-		leftSettled := m.leftLatest != 0 && m.completeSeen[m.leftLatest]
-		joinSettled := m.joinLatest != 0 && m.completeSeen[m.joinLatest]
+		vC34_notify(x, &m, k, true)
+	}
+	vCover("end")
+}
 
-		// everything the step emitted
-		for len(x.events) > 0 {
-			ev := <-x.events
-			switch p := ev.Payload.(type) {
-			case *NodeLeftEvent:
-				i := vC34_index(p.Address)
-				vAssert(ev.Type == NodeLeft && i >= 0, "a NodeLeft event carries the NodeLeft type and a notified address")
-				if i < 0 {
-					break
-				}
-				vAssert(i != 0, "the local node is never reported in a NodeLeft event")
-				vAssert(m.leftNotified[i], "NodeLeft is only emitted for a node whose departure was notified")
-				vAssert(!m.leftOpen[i], "at most one NodeLeft per node until the opposite event")
-				vAssert((kind == vC34_overdue && n == i) || leftSettled, "NodeLeft is emitted only once the latest node-left rebalance epoch has completed, or on the node's timeout")
-				m.leftOpen[i], m.joinedOpen[i], m.lastOut[i], m.wantLeft[i] = true, false, 1, false
-				if kind == vC34_overdue {
-					vCover("left-on-timeout")
-				} else if kind == vC34_complete {
-					vCover("left-on-complete")
-				} else if kind == vC34_start {
-					vCover("left-on-late-start")
-				} else if kind == vC34_left {
-					vCover("left-on-late-notification")
-				}
-			case *NodeJoinedEvent:
-				i := vC34_index(p.Address)
-				vAssert(ev.Type == NodeJoined && i >= 0, "a NodeJoined event carries the NodeJoined type and a notified address")
-				if i < 0 {
-					break
-				}
-				vAssert(i != 0, "the local node is never reported in a NodeJoined event")
-				vAssert(m.joinNotified[i], "NodeJoined is only emitted for a node whose arrival was notified")
-				vAssert(!m.joinedOpen[i], "at most one NodeJoined per node until the opposite event")
-				vAssert(joinSettled, "NodeJoined is emitted only once the latest node-join rebalance epoch has completed")
-				if m.lastOut[i] == 1 {
-					vCover("joined-after-left")
-				}
-				m.joinedOpen[i], m.leftOpen[i], m.lastOut[i] = true, false, 2
-				vCover("joined")
-			default:
-				vAssert(false, "only NodeLeft and NodeJoined events are emitted by the membership handlers")
-			}
+// one notification (kind, the node it names, and for rebalance events epoch and reason), then everything it emitted
+func vC34_notify(x *cluster, m *vC34Mon, k int, progress bool) {
+	kind := vChoose("kind", 5)
+	n := vChoose("node", 4)
+	e := vChoose("epoch", 3) + 1
+	r := vChoose("reason", 3)
+	ts := int64(k+1) * 1000000
+	reason, rnode := vC34_reasons[r], vC34_names[n]
+	newDeparture := -1
+	// the node / epoch are dispatched over their (small) domains so the handlers run on concrete map keys
+	for c := 0; c < 4; c++ {
+		if n != c {
+			continue
 		}
+		switch kind {
+		case vC34_join:
+			m.joinNotified[c] = true
+			m.leftOpen[c] = false
+			x.trackNodeJoinEvent(events.NodeJoinEvent{NodeJoin: vC34_names[c], Timestamp: ts})
+		case vC34_left:
+			m.leftNotified[c] = true
+			m.joinedOpen[c] = false
+			if m.lastOut[c] != 1 {
+				m.wantLeft[c] = true
+				newDeparture = c
+			}
+			x.trackNodeLeftEvent(events.NodeLeftEvent{NodeLeft: vC34_names[c], Timestamp: ts})
+		case vC34_overdue:
+			x.emitOverdueNodeLeft(vC34_names[c])
+		}
+	}
+	for c := 1; c <= 3; c++ {
+		if e != c {
+			continue
+		}
+		switch kind {
+		case vC34_start:
+			if r < 2 && !(r == 1 && n == 0) && !m.startSeen[c] {
+				m.startSeen[c] = true
+				if r == 0 {
+					m.leftLatest = c
+				} else {
+					m.joinLatest = c
+				}
+			}
+			x.processRebalanceStart(events.RebalanceStartEvent{Epoch: uint64(c), Reason: reason, Node: rnode})
+		case vC34_complete:
+			m.completeSeen[c] = true
+			x.processRebalanceComplete(events.RebalanceCompleteEvent{Epoch: uint64(c)})
+		}
+	}
+	leftSettled := m.leftLatest != 0 && m.completeSeen[m.leftLatest]
+	joinSettled := m.joinLatest != 0 && m.completeSeen[m.joinLatest]
 
-		if progress {
-			for i := 1; i < 4; i++ {
-				if kind == vC34_overdue && n == i {
-					vAssert(!m.wantLeft[i], "a notified departure is reported when its timeout fires")
-				}
-				if leftSettled {
-					vAssert(!m.wantLeft[i], "a notified departure is reported once the latest node-left rebalance epoch has completed")
-				}
+	// everything the step emitted
+	for len(x.events) > 0 {
+		ev := <-x.events
+		switch p := ev.Payload.(type) {
+		case *NodeLeftEvent:
+			i := vC34_index(p.Address)
+			vAssert(ev.Type == NodeLeft && i >= 0, "a NodeLeft event carries the NodeLeft type and a notified address")
+			if i < 0 {
+				break
+			}
+			vAssert(i != 0, "the local node is never reported in a NodeLeft event")
+			vAssert(m.leftNotified[i], "NodeLeft is only emitted for a node whose departure was notified")
+			vAssert(!m.leftOpen[i], "at most one NodeLeft per node until the opposite event")
+			vAssert((kind == vC34_overdue && n == i) || leftSettled, "NodeLeft is emitted only once the latest node-left rebalance epoch has completed, or on the node's timeout")
+			m.leftOpen[i], m.joinedOpen[i], m.lastOut[i], m.wantLeft[i] = true, false, 1, false
+			if kind == vC34_overdue {
+				vCover("left-on-timeout")
+			} else if kind == vC34_complete {
+				vCover("left-on-complete")
+			} else if kind == vC34_start {
+				vCover("left-on-late-start")
+			} else if kind == vC34_left {
+				vCover("left-on-late-notification")
+			}
+		case *NodeJoinedEvent:
+			i := vC34_index(p.Address)
+			vAssert(ev.Type == NodeJoined && i >= 0, "a NodeJoined event carries the NodeJoined type and a notified address")
+			if i < 0 {
+				break
+			}
+			vAssert(i != 0, "the local node is never reported in a NodeJoined event")
+			vAssert(m.joinNotified[i], "NodeJoined is only emitted for a node whose arrival was notified")
+			vAssert(!m.joinedOpen[i], "at most one NodeJoined per node until the opposite event")
+			vAssert(joinSettled, "NodeJoined is emitted only once the latest node-join rebalance epoch has completed")
+			if m.lastOut[i] == 1 {
+				vCover("joined-after-left")
+			}
+			m.joinedOpen[i], m.leftOpen[i], m.lastOut[i] = true, false, 2
+			vCover("joined")
+		default:
+			vAssert(false, "only NodeLeft and NodeJoined events are emitted by the membership handlers")
+		}
+	}
+
+	if progress {
+		for i := 1; i < 4; i++ {
+			if newDeparture == i {
+				vAssert(!m.wantLeft[i] || vC34_in(x.nodeLeftTimestamps, vC34_names[i]), "a departure notified while the node is not reported as left is recorded (or reported at once)")
+			}
+			if kind == vC34_overdue && n == i {
+				vAssert(!m.wantLeft[i], "a recorded departure is reported when its timeout fires")
+			}
+			if leftSettled {
+				vAssert(!m.wantLeft[i], "a recorded departure is reported once the latest node-left rebalance epoch has completed")
 			}
 		}
 	}
+}
+
+// witness history for the re-departure finding: p leaves (reported on timeout), rejoins (reported after its epoch), leaves again
+func vC34_redeparture() {
+	x := vC34_newCluster(4)
+	c := vChoose("peer", 3) + 1
+	e := uint64(vChoose("epoch", 3) + 1)
+	p := vC34_names[c]
+	x.trackNodeLeftEvent(events.NodeLeftEvent{NodeLeft: p, Timestamp: 1000000})
+	x.emitOverdueNodeLeft(p)
+	x.trackNodeJoinEvent(events.NodeJoinEvent{NodeJoin: p, Timestamp: 2000000})
+	x.processRebalanceStart(events.RebalanceStartEvent{Epoch: e, Reason: rebalanceReasonNodeJoin, Node: p})
+	x.processRebalanceComplete(events.RebalanceCompleteEvent{Epoch: e})
+	vAssert(len(x.events) == 2, "the first departure and the arrival are both reported")
+	<-x.events
+	<-x.events
+	x.trackNodeLeftEvent(events.NodeLeftEvent{NodeLeft: p, Timestamp: 3000000})
+	x.emitOverdueNodeLeft(p)
+	vAssert(len(x.events) == 1, "a node that left, rejoined and leaves again is reported as left again (after its timeout)")
 	vCover("end")
 }
